@@ -44,6 +44,8 @@ func main() {
 		cmdC11(seed, tier, outdir)
 	case "c04":
 		cmdC04(seed, tier, outdir)
+	case "c09":
+		cmdC09(seed, tier, outdir)
 	case "c12":
 		cmdC12(seed, tier, outdir)
 	case "c19":
